@@ -325,3 +325,81 @@ Theorem C05_inplace_write_refuted :
      [(0, ex_pay 0 7); (1, ex_pay 5 9)]).
 Proof. eexists. split; vm_compute; reflexivity. Qed.
 Print Assumptions C05_inplace_write_refuted.
+
+(* ====================================================================================================== *)
+(* Write failures.  [PlLWrite t false] is an ENVIRONMENT outcome of the write step: net.Conn.Write may fail *)
+(* for any exchange at any time (EMSGSIZE for a query of 65508..65535 octets on a datagram socket — the    *)
+(* connection stays open; any error on TCP / DoT), also while other exchanges are in flight.  It is one of  *)
+(* the labels of [reachable] / [pl_run], so every theorem above already covers histories with failed       *)
+(* writes; the statements below say explicitly what a failed write may NOT do.                             *)
+(* ====================================================================================================== *)
+
+(* a write, successful or failed, leaves the id counter, the assignment log and the waiter table alone: the id
+   of an exchange whose write failed stays consumed *)
+Theorem C05_write_keeps_id : forall s t ok s',
+  pl_step s (PlLWrite t ok) = Some s' ->
+  pl_nextQid s' = pl_nextQid s /\ pl_alog s' = pl_alog s /\ pl_queue s' = pl_queue s /\ pl_closed s' = pl_closed s.
+Proof. exact write_keeps_id. Qed.
+Print Assumptions C05_write_keeps_id.
+
+(* ids are never reused during a connection's life, whatever writes do: along EVERY continuation (any
+   interleaving of failed and successful writes with addQueueC, replies, cancels, closes) the counter never
+   decreases, the assignment log only grows, assigned ids stay pairwise distinct, and an id that was ever
+   assigned to exchange t — even if t's write failed and t is long gone — is never held by another exchange *)
+Theorem C05_ids_never_reused : forall tcp q0 s,
+  q0 <= 65536 -> reachable tcp q0 s ->
+  forall ls s', pl_run ls s = Some s' ->
+    pl_nextQid s <= pl_nextQid s' /\
+    (exists new, pl_alog s' = new ++ pl_alog s) /\
+    NoDup (assigned_ids s') /\
+    (forall t th w, pl_tget s t = Some th -> pl_twid th = Some w ->
+       forall t' th', pl_tget s' t' = Some th' -> pl_twid th' = Some w -> t' = t).
+Proof. exact ids_never_reused. Qed.
+Print Assumptions C05_ids_never_reused.
+
+(* a history with failed writes between live exchanges (the events replayed by the correspondence check):
+   exchange 1 is assigned id 1 and sits in Write, exchange 2 takes id 2 and is written, exchange 1's Write
+   fails, exchange 3 takes id 3 (NOT 2), the late reply to 2 goes to 2, the reply to 3 to 3; a sequential
+   failing exchange consumes id 4; exchange 5 gets id 5 *)
+Example C05_example_write_failure :
+  pl_history_outcomes false 0
+    [PlEvStart 100; PlEvReplyTo 0 1; PlEvHold 101; PlEvStart 102; PlEvRelease 1 false false; PlEvStart 103;
+     PlEvReplyTo 2 7; PlEvReplyTo 3 8; PlEvStartFail 104 false; PlEvStart 105; PlEvReplyTo 5 9] =
+  ([(PlOMsg 1 true, Some 0); (PlOErr, None); (PlOMsg 7 true, Some 2); (PlOMsg 8 true, Some 3);
+    (PlOErr, None); (PlOMsg 9 true, Some 5)], false).
+Proof. vm_compute. reflexivity. Qed.
+
+(* Why the id must stay consumed.  The design "a failed write gives its id back" (pl_gb_step: nextQid-- after a
+   failed write) is harmless sequentially, but on this schedule — exchange 0's write fails after exchange 1 took
+   the next id — exchange 2 is assigned id 1 AGAIN while exchange 1 still waits on it: the waiter table entry of
+   exchange 1 is overwritten, the server's reply to exchange 1 (tag 50) is returned by exchange 2, and exchange 1
+   waits for ever. *)
+Definition ex_gb_schedule : list pl_label :=
+  [PlLSpawn 7; PlLAdd 0; PlLSpawn 8; PlLAdd 1; PlLWrite 1 true; PlLWrite 0 false; PlLDelete 0;
+   PlLSpawn 9; PlLAdd 2; PlLWrite 2 true; PlLRecv 1 50; PlLLookup; PlLSend; PlLTakeReply 2; PlLDelete 2].
+
+Theorem C05_giveback_refuted :
+  exists s, pl_gb_run ex_gb_schedule (pl_init false 0) = Some s /\
+    pl_outcomes s = [(PlOErr, None); (PlOWait, Some 1); (PlOMsg 50 true, Some 1)] /\
+    map snd (pl_alog s) = [1; 1; 0] /\ pl_queue s = [].
+Proof. eexists. split; [vm_compute; reflexivity|]. vm_compute. repeat split; reflexivity. Qed.
+Print Assumptions C05_giveback_refuted.
+
+(* the faithful model on the same schedule up to the reply: exchange 2 gets the fresh id 2, and the reply to id 1
+   reaches exchange 1 *)
+Example C05_example_no_giveback :
+  match pl_run [PlLSpawn 7; PlLAdd 0; PlLSpawn 8; PlLAdd 1; PlLWrite 1 true; PlLWrite 0 false; PlLDelete 0;
+                PlLSpawn 9; PlLAdd 2; PlLWrite 2 true; PlLRecv 1 50; PlLLookup; PlLSend; PlLTakeReply 1; PlLDelete 1]
+              (pl_init false 0) with
+  | Some s => map snd (pl_alog s) = [2; 1; 0] /\
+              pl_outcomes s = [(PlOErr, None); (PlOMsg 50 true, Some 1); (PlOWait, Some 2)]
+  | None => False
+  end.
+Proof. vm_compute. split; reflexivity. Qed.
+
+(* a write error other than EMSGSIZE on a datagram socket closes the connection from inside write: the waiting
+   exchange 0 leaves with an error, nothing is assigned afterwards that could collide *)
+Example C05_example_write_failure_close :
+  pl_history_outcomes false 0 [PlEvStart 1; PlEvHold 2; PlEvStart 3; PlEvRelease 1 false true; PlEvStart 4] =
+  ([(PlOErr, Some 0); (PlOErr, None); (PlOErr, Some 2); (PlOErr, None)], true).
+Proof. vm_compute. reflexivity. Qed.
